@@ -18,6 +18,7 @@ It is not intended that this class will be ordinarily accessible to users.
 """
 
 from collections.abc import Iterator
+from numbers import Integral
 from typing import Any, Union, overload
 
 from ..utils import AnnotatedStateError, annotated_state_to_string
@@ -124,6 +125,6 @@ class AnnotatedState:
     ) -> Union["AnnotatedState", list]:
         if isinstance(indices, slice):
             return AnnotatedState(self.__s[indices])
-        if isinstance(indices, int):
+        if isinstance(indices, Integral):
             return list(self.__s[indices])
         raise TypeError("Subscript should either be int or slice.")
